@@ -332,11 +332,11 @@ func (self *BinaryConv) doRecurse(ctx context.Context, s string, jp int, desc *t
 						ret = jp
 
 						if err == errNull {
-							// unwind written field tag
+							// unwind written field tag; a null member counts as absent (as in the native converter)
 							p.Buf = p.Buf[:ks]
+						} else {
+							bm.Set(ft.ID(), thrift.OptionalRequireness)
 						}
-
-						bm.Set(ft.ID(), thrift.OptionalRequireness)
 					}
 
 				OBJECT_NEXT:
